@@ -204,7 +204,7 @@ def _recipe_facts():
     for nf0 in (3, 4, 5, 6):
         for mu20 in (1.0, 2.0, 10.0, 20.0, 100.0, 30000.0, 1e5):
             rs = recipes._elements((mu20, nf0), Atlas(list(walls), (mu20, nf0)))
-            ok = len(rs) == 1 and isinstance(rs[0], Evolution) and rs[0].origin == mu20 and rs[0].target == mu20 and rs[0].nf == nf0 and rs[0].cliff in (False, True)
+            ok = len(rs) == 1 and isinstance(rs[0], Evolution) and rs[0].origin == mu20 and rs[0].target == mu20 and rs[0].nf == nf0 and isinstance(rs[0].cliff, bool)
             if not ok:
                 bad.append("origin (%r, %d): parts %r" % (mu20, nf0, rs))
     return bad
